@@ -58,7 +58,8 @@ IsScoped == prog[1].a
 \* ---------------- R-level.  st = [v, trace, fuel, sig, rv, hasrv, depth, infn, dc]
 RECURSIVE RunBlock(_,_,_), RunFor(_,_,_), Call(_,_,_)
 Tick(st) == [st EXCEPT !.fuel = IF @ = 0 THEN 0 ELSE @ - 1]
-EmitRec(lo, st) == <<lo, st.v.c, st.v.i, st.v.r, IF st.infn THEN st.v.a1 ELSE 0>>
+\* ${1} is printed everywhere: after a call the caller's ${1} is what it was (scoped) / the last argument bound (plain variables otherwise)
+EmitRec(lo, st) == <<lo, st.v.c, st.v.i, st.v.r, st.v.a1>>
 \* a call of f with argument g and output flag o: returns the state after the call
 Call(st, o, g) ==
   IF st.depth >= 3 THEN [st EXCEPT !.fuel = 0]
@@ -128,7 +129,7 @@ Step ==
      ELSE IF steps >= Budget THEN phase' = "done" /\ result' = "budget" /\ U(<<pc, v, trace, ifStack, forStack, fnStack, ifMeta, forMeta, fnInfo, endTab>>)
      ELSE LET ln == prog[pc+1]  op == Resolve(ln.cmd, pc) IN
      /\ phase' = "run" /\ result' = result
-     /\ CASE op = "emit" -> trace' = Append(trace, <<pc, v.c, v.i, v.r, IF fnStack # <<>> THEN v.a1 ELSE 0>>) /\ pc' = pc+1 /\ U(<<v, ifStack, forStack, fnStack, ifMeta, forMeta, fnInfo, endTab>>)
+     /\ CASE op = "emit" -> trace' = Append(trace, <<pc, v.c, v.i, v.r, v.a1>>) /\ pc' = pc+1 /\ U(<<v, ifStack, forStack, fnStack, ifMeta, forMeta, fnInfo, endTab>>)
           [] op = "dec" -> v' = [v EXCEPT !.c = IF @ > 0 THEN @ - 1 ELSE 0] /\ pc' = pc+1 /\ U(<<trace, ifStack, forStack, fnStack, ifMeta, forMeta, fnInfo, endTab>>)
           [] op \in {"Noop", "EndIf"} -> pc' = pc+1 /\ U(<<v, trace, ifStack, forStack, fnStack, ifMeta, forMeta, fnInfo, endTab>>)
           [] op = "fn" ->
